@@ -1021,7 +1021,7 @@ class Engine:
 
     def st_Return(self, s):
         v = self.eval(s.value) if s.value is not None else None
-        if not self.spec_mode:
+        if not self.spec_mode and not getattr(self, 'inline_depth', 0):
             self.st.env['__return__'] = v
             self.run_hook(('before_return',), s)
         raise ReturnSig(v)
